@@ -7,7 +7,7 @@ open OPM OPM.Wire OPM.Proto
 
 /-! Wire format (space separated tokens, prefix notation, strings as `enc`):
   values  N | T | F | I<int> | D<num>/<exp> | Dnan | Dpinf | Dninf | S<enc> | E<enc>
-          L<n> v*n | Z<n> <enc>*n | M<n> (key v)*n  with key = S<enc> | I<int> | D...
+          L<n> v*n | U<n> v*n (tuple) | Z<n> <enc>*n | M<n> (key v)*n  with key = S<enc> | I<int> | D...
           O<n> <enc ns> <enc name> (<enc field> v)*n
   json    N | T | F | I | D | S | L<n> j*n | M<n> (<enc key> j)*n
 ops:  rt <value>      round trip of a message (sets iterated in the given order)
@@ -46,6 +46,8 @@ partial def parseVal : List String → Option (Val × List String)
     else if t.startsWith "S" then (decodeStr (tail1 t)).map (fun s => (.str s, rest))
     else if t.startsWith "E" then (decodeStr (tail1 t)).map (fun s => (.enm s, rest))
     else if t.startsWith "L" then (tail1 t).toNat?.bind (fun n => parseList n rest)
+    else if t.startsWith "U" then (tail1 t).toNat?.bind (fun n =>
+      (parseList n rest).map (fun (l, r) => (.tup l, r)))
     else if t.startsWith "Z" then (tail1 t).toNat?.bind (fun n =>
       if rest.length < n then none else
       ((rest.take n).mapM decodeStr).map (fun l => (.set l, rest.drop n)))
@@ -141,6 +143,7 @@ partial def showVal (mu : Bool) : Val → List String
   | .enm s => ["E" ++ encodeStr s]
   | .lnil => ["L0"]
   | .lcons h t => s!"L{spineLen t + 1}" :: (showVal mu h ++ listItems mu t)
+  | .tup l => s!"U{spineLen l}" :: listItems mu l
   | .set l => s!"Z{l.length}" :: l.map encodeStr
   | .dnil => ["M0"]
   | .dcons k v t => s!"M{spineLen t + 1}" :: (showKey k :: showVal mu v ++ dictItems mu t)
